@@ -18,7 +18,7 @@ theorem C10_every_id_of_a_class_dispatches_alike (s s' : PState) (mults rest : L
     (hword : ∀ r ∈ s.registry.classes, r.id < 2 ^ 64 - 1)
     (c : Compiled) (hc : s'.compiled = some c)
     (key mi : Nat) (m : MethodC) (hfind : (List.zipIdx c.methods).find? (fun e => e.1.key == key) = some (m, mi))
-    (args args' : List (Kind × Nat)) (cs : List Nat) (hstatic : s'.staticId = 0)
+    (args args' : List (Kind × Nat)) (cs : List Nat) (hnomap : s.cfg.hash = .checked → ¬ s.cfg.vptrMap = true)
     (hreg : Forall₂ (fun (id ci : Nat) => id ∈ c.graph.ids ci) (virtIds args) cs)
     (hreg' : Forall₂ (fun (id ci : Nat) => id ∈ c.graph.ids ci) (virtIds args') cs)
     (halias : (virtIds args).map s.cfg.proj = (virtIds args').map s.cfg.proj)
@@ -26,9 +26,9 @@ theorem C10_every_id_of_a_class_dispatches_alike (s s' : PState) (mults rest : L
     ∃ o, s'.callWith key args .ref [] = expected m.vp.length args o ∧
          s'.callWith key args' .ref [] = expected m.vp.length args' o := by
   obtain ⟨mr, o, hmr, hsel, hcall⟩ := C01_C02_call_after_update s s' mults rest hup hwf hword c hc key mi m hfind
-    args cs hstatic hreg hacc hpos
+    args cs hnomap hreg hacc hpos
   obtain ⟨mr', o', hmr', hsel', hcall'⟩ := C01_C02_call_after_update s s' mults rest hup hwf hword c hc key mi m hfind
-    args' cs hstatic hreg' hacc hpos
+    args' cs hnomap hreg' hacc hpos
   rw [hmr] at hmr'; cases hmr'
   rw [← halias] at hsel'
   have hr : Ranked s.cfg.proj s.registry s.registry.classes.length := Props.C06.ranked_of_wf hwf
@@ -43,14 +43,14 @@ theorem C10_alias_runs_same_definition (s s' : PState) (mults rest : List UInt64
     (hword : ∀ r ∈ s.registry.classes, r.id < 2 ^ 64 - 1)
     (c : Compiled) (hc : s'.compiled = some c)
     (key mi : Nat) (m : MethodC) (hfind : (List.zipIdx c.methods).find? (fun e => e.1.key == key) = some (m, mi))
-    (args args' : List (Kind × Nat)) (cs : List Nat) (hstatic : s'.staticId = 0)
+    (args args' : List (Kind × Nat)) (cs : List Nat) (hnomap : s.cfg.hash = .checked → ¬ s.cfg.vptrMap = true)
     (hreg : Forall₂ (fun (id ci : Nat) => id ∈ c.graph.ids ci) (virtIds args) cs)
     (hreg' : Forall₂ (fun (id ci : Nat) => id ∈ c.graph.ids ci) (virtIds args') cs)
     (halias : (virtIds args).map s.cfg.proj = (virtIds args').map s.cfg.proj)
     (hacc : Forall₂ (fun cl v => cl ∈ c.graph.cov.get v) cs m.vp) (hpos : 0 < m.vp.length)
     (d : Nat) (hran : s'.callWith key args .ref [] = .ran d) : s'.callWith key args' .ref [] = .ran d := by
   obtain ⟨o, h1, h2⟩ := C10_every_id_of_a_class_dispatches_alike s s' mults rest hup hwf hword c hc key mi m hfind
-    args args' cs hstatic hreg hreg' halias hacc hpos
+    args args' cs hnomap hreg hreg' halias hacc hpos
   rw [h1] at hran
   cases o with
   | ran d' => simp only [expected] at hran h2; rw [h2]; exact hran
